@@ -36,6 +36,7 @@ struct Kit {
     int id = 0;
     // --- random source
     std::vector<uint8_t> rand_bytes; size_t rand_pos = 0; std::vector<size_t> rand_calls; uint64_t rand_total = 0;
+    bool rand_echo = false; std::vector<uint8_t> rand_left;   // rand_echo: the source writes nothing (a broken but possible source); rand_left: the buffer content as the source left it
     // --- clock
     uint64_t clock = 1700000000ull; uint64_t time_calls = 0; std::vector<uint64_t> clock_seq; std::vector<uint64_t> clock_given;   // clock_seq: successive readings (last one repeats); clock_given: what was delivered
     // --- KDF
@@ -60,7 +61,7 @@ struct Kit {
         nfc_calls = nfkd_calls = 0; truncated = false; invalid_seen = false;
     }
     void reset_all() {
-        reset_logs(); rand_bytes.clear(); rand_pos = 0; clock = 1700000000ull; clock_seq.clear(); kdf_mode = KDF_MIX; memset(kdf_fixed, 0, 32); kdf_key_salt = 0;
+        reset_logs(); rand_bytes.clear(); rand_pos = 0; rand_echo = false; rand_left.clear(); clock = 1700000000ull; clock_seq.clear(); kdf_mode = KDF_MIX; memset(kdf_fixed, 0, 32); kdf_key_salt = 0;
         mz_mode = MZ_WIPE; mz_log = true; fail_mask = 0; fail_pos = 0; fail_all = false; foreign_ok = false; track = true; garbage = 0xA7; lenient = false; norm_passthrough = false; yield_mode = 0;
         // live blocks are NOT dropped: they belong to seeds still held by the test
     }
@@ -84,7 +85,8 @@ inline void kdf_fill(const Kit& k, const uint8_t* pw, size_t pwlen, const uint8_
 template <int S> void f_randbytes(void* out, size_t n) {
     StubScope sc_; Kit& k = kit(S); maybe_yield(k); k.rand_calls.push_back(n); k.rand_total += n;
     uint8_t* o = (uint8_t*)out;
-    for (size_t i = 0; i < n; i++) { o[i] = k.rand_pos < k.rand_bytes.size() ? k.rand_bytes[k.rand_pos] : (uint8_t)(0x5C + k.rand_pos); k.rand_pos++; }
+    if (!k.rand_echo) for (size_t i = 0; i < n; i++) { o[i] = k.rand_pos < k.rand_bytes.size() ? k.rand_bytes[k.rand_pos] : (uint8_t)(0x5C + k.rand_pos); k.rand_pos++; }
+    k.rand_left.assign(o, o + (n < 64 ? n : 64));
 }
 template <int S> uint64_t f_time(void) { StubScope sc_; Kit& k = kit(S); maybe_yield(k); uint64_t v = k.clock_seq.empty() ? k.clock : k.clock_seq[k.time_calls < k.clock_seq.size() ? k.time_calls : k.clock_seq.size() - 1]; k.time_calls++; if (k.clock_given.size() < 16) k.clock_given.push_back(v); return v; }
 template <int S> void f_pbkdf2(const uint8_t* pw, size_t pwlen, const uint8_t* salt, size_t saltlen, uint64_t it, uint8_t* key, size_t keylen) {
